@@ -64,6 +64,22 @@ pub fn run(ctx: &Ctx) {
         let calls = (0..len).map(|_| catalogue(&mut rng, &cfg, big)).collect();
         emit(&mut out, &Case { cfg, calls, sorted: true });
     }
+    // entries that make one of the formatter's reusable buffers grow past a megabyte (one distribution of 250 000
+    // distinct observations; 30 000 metrics), followed by ordinary entries: decided by the fresh-formatter predicate
+    for (k, huge) in [0u64, 1].into_iter().enumerate() {
+        let cfg = Config { ctor: if k == 0 { Ctor::AllValidations } else { Ctor::NoValidations }, namespaces: vec!["N".into()], default_dims: vec![vec![]], directives: vec![], log_group: None, allow_ignored: false };
+        let mut items = vec![Item::Timestamp(1_700_000_000_000_000_000)];
+        if huge == 0 {
+            items.push(Item::Value("Dist".into(), VCall::Metric((0..250_000u64).map(Obs::U).collect(), UnitS::None, vec![], Flag::None)));
+        } else {
+            for i in 0..30_000u64 { items.push(Item::Value(format!("metric_with_a_long_name_{i:08}"), VCall::Metric(vec![Obs::U(i)], UnitS::None, vec![], Flag::None))); }
+        }
+        let big = Call { rate_exp: None, items, script: vec![] };
+        let small = |rng: &mut Rng| catalogue(rng, &cfg, false);
+        let calls = vec![small(&mut rng), big, small(&mut rng), small(&mut rng)];
+        out.count("sequence_with_a_megabyte_entry");
+        emit(&mut out, &Case { cfg, calls, sorted: true });
+    }
     // all ordered pairs over a catalogue of representative entries under one configuration
     let cfg = Config { ctor: Ctor::AllValidations, namespaces: vec!["A".into(), "B".into()], default_dims: vec![vec!["Region".into()], vec![]], directives: vec![], log_group: Some("lg".into()), allow_ignored: false };
     let ncat = if ctx.tier_thorough { 40 } else { 14 };
